@@ -18,7 +18,9 @@ EXTENDS Registry, Json
 
 CONSTANTS Focus      \* set of property ids, e.g. {"C02"}
 
-VARIABLES prevobs, \* observation logged with the previous event
+VARIABLES pre,     \* [blob, man, tag] before the last operation (C09: what a crash during it may fall back to)
+          lastop,  \* the last operation record
+          prevobs, \* observation logged with the previous event
           rsum,    \* digest of the root directory tree after the previous event
           osum,    \* digest of everything next to the root directory (sentinels) after the previous event
           lastgc, \* repository collected by the immediately preceding event ("" otherwise)
@@ -27,7 +29,7 @@ VARIABLES prevobs, \* observation logged with the previous event
           fails,  \* sequence of failure records
           stats   \* [events, checked]: counters for the evidence
 
-tvars == <<vars, prevobs, rsum, osum, lastgc, l, skip, fails, stats>>
+tvars == <<vars, pre, lastop, prevobs, rsum, osum, lastgc, l, skip, fails, stats>>
 
 Trace == ndJsonDeserialize("trace.ndjson")
 
@@ -211,6 +213,7 @@ Enforced ==
     C14 |-> {"ro.frozen", "ro.refused", "resp", "sync.blobs", "sync.mans", "sync.tags", "taglist", "refs", "noerr"},
     C14F |-> {"ro.frozen", "ro.refused", "noerr"},      \* pre-existing foreign directories: content outside the catalogue
     C16 |-> {"confined", "resp", "sync.blobs", "sync.mans", "sync.tags", "taglist", "refs", "sess", "noerr"},
+    C09 |-> {"resp", "sync.blobs", "sync.mans", "sync.tags", "noerr"},
     C06 |-> {"gc.exact", "gc.idem", "gc.safe", "gc.index", "sync.blobs", "sync.mans", "sync.tags", "taglist", "noerr"} ]
 
 Active == UNION {Enforced[p] : p \in Focus \cap DOMAIN Enforced}
@@ -250,6 +253,7 @@ TraceInit ==
   /\ InitState
   /\ l = 2 /\ skip = FALSE /\ fails = <<>> /\ lastgc = ""
   /\ prevobs = [none |-> TRUE] /\ rsum = Trace[1].rootsum /\ osum = Trace[1].outsum
+  /\ pre = [blob |-> blob, man |-> man, tag |-> tag] /\ lastop = [op |-> "none"]
   /\ stats = [events |-> 0, checked |-> 0, traces |-> 1]
 
 TraceReset ==
@@ -264,17 +268,19 @@ TraceReset ==
   /\ sess' = <<>> /\ nsess' = 0 /\ resp' = R0
   /\ l' = l + 1 /\ skip' = FALSE /\ UNCHANGED fails /\ lastgc' = ""
   /\ prevobs' = [none |-> TRUE] /\ rsum' = Trace[l].rootsum /\ osum' = Trace[l].outsum
+  /\ pre' = [blob |-> blob', man |-> man', tag |-> tag'] /\ lastop' = [op |-> "none"]
   /\ stats' = [stats EXCEPT !.traces = @ + 1]
 
 TraceOp ==
   /\ l <= Len(Trace) /\ Trace[l].k = "op"
   /\ l' = l + 1
   /\ IF skip
-     THEN UNCHANGED <<vars, skip, fails, lastgc, prevobs, rsum, osum>> /\ stats' = [stats EXCEPT !.events = @ + 1]
+     THEN UNCHANGED <<vars, pre, lastop, skip, fails, lastgc, prevobs, rsum, osum>> /\ stats' = [stats EXCEPT !.events = @ + 1]
      ELSE LET e == Trace[l] IN
           /\ Step(e)
           /\ lastgc' = IF e.op.op = "GC" THEN e.op.repo ELSE ""
           /\ prevobs' = e.obs /\ rsum' = e.rootsum /\ osum' = e.outsum
+          /\ pre' = [blob |-> blob, man |-> man, tag |-> tag] /\ lastop' = e.op
           /\ LET f == Failed(e) IN
              /\ fails' = IF f = {} THEN fails
                          ELSE Append(fails, [trace |-> env.trace, i |-> e.i, line |-> l, op |-> e.op.op, clauses |-> f,
@@ -282,7 +288,65 @@ TraceOp ==
              /\ skip' = (f # {})
           /\ stats' = [stats EXCEPT !.events = @ + 1, !.checked = @ + 1]
 
-TraceNext == TraceReset \/ TraceOp
+\* C09: a crash image taken right before file system call n of the last operation, opened by a new server.
+\* st is "pre" or "cur": the abstract state before / after the interrupted operation.
+StBlob(st, r) == IF st = "pre" THEN pre.blob[r] ELSE blob[r]
+StMan(st, r)  == IF st = "pre" THEN pre.man[r] ELSE man[r]
+StTag(st, r)  == IF st = "pre" THEN pre.tag[r] ELSE tag[r]
+\* what the recovered server must present for state st, given the blobs it holds
+ViewMatches(o, st, r) ==
+  LET B == S(o.blobs)
+      Mn == StMan(st, r)
+      Tg == StTag(st, r)
+  IN /\ {<<x.d, x.mt>> : x \in S(o.mans)} = {<<d, Mn[d]>> : d \in {y \in DOMAIN Mn : y \in B}}
+     /\ {<<x.t, x.d>> : x \in S(o.tags)} = {<<t, Tg[t]>> : t \in {y \in DOMAIN Tg : Tg[y] \in B}}
+     /\ o.taglist = SortTags(DOMAIN Tg)
+     /\ \A x \in S(o.refs) : x.st = 200 /\ S(x.list) = {d \in DOMAIN Mn : SubjectOf(d) = x.s} /\ Len(x.list) = Cardinality(S(x.list))
+\* Named deviation (known finding artifact-two-saves): the push / delete of a manifest with a subject writes the
+\* index twice (the manifest entry, then the referrers response), so a crash in between leaves the manifests and
+\* tags of one state with the referrers lists of the other.
+ViewSplit(o, stm, str, r) ==
+  LET B == S(o.blobs)
+      Mn == StMan(stm, r)
+      Tg == StTag(stm, r)
+      Rn == StMan(str, r)
+  IN /\ {<<x.d, x.mt>> : x \in S(o.mans)} = {<<d, Mn[d]>> : d \in {y \in DOMAIN Mn : y \in B}}
+     /\ {<<x.t, x.d>> : x \in S(o.tags)} = {<<t, Tg[t]>> : t \in {y \in DOMAIN Tg : Tg[y] \in B}}
+     /\ o.taglist = SortTags(DOMAIN Tg)
+     /\ \A x \in S(o.refs) : x.st = 200 /\ S(x.list) = {d \in DOMAIN Rn : SubjectOf(d) = x.s} /\ Len(x.list) = Cardinality(S(x.list))
+ArtifactOp ==
+  \/ lastop.op = "ManPut" /\ IsManC(lastop.body) /\ M(lastop.body).subject # ""
+  \/ lastop.op = "ManDel" /\ lastop.ref.k = "dig" /\ SubjectOf(lastop.ref.v) # ""
+DevArtifactTwoSaves(e) ==
+  Cfg.referrers /\ ArtifactOp /\ \E stm, str \in {"pre", "cur"} : \A r \in DOMAIN e.obs : ViewSplit(e.obs[r], stm, str, r)
+
+CrashClauses(e) ==
+  { \* every repository loads, every blob file matches its name, everything served is intact
+    <<"crash.intact", \A r \in DOMAIN e.obs : LET o == e.obs[r] IN
+         /\ o.blobsbad = <<>> /\ o.mansbad = <<>> /\ o.tagsbad = <<>> /\ o.errs = <<>> /\ o.tagst \in {200, 404}
+         /\ ("disk" \in DOMAIN o => o.disk.badfiles = <<>> /\ o.disk.index # "bad")>>,
+    \* nothing acknowledged is lost: blobs held before and after the interrupted operation are there, nothing else appears
+    <<"crash.blobs", \A r \in DOMAIN e.obs : LET B == S(e.obs[r].blobs) IN
+         (pre.blob[r] \cap blob[r]) \subseteq B /\ B \subseteq (pre.blob[r] \cup blob[r])>>,
+    \* the interrupted operation is absent or present as a whole: manifests, tags and referrers lists of all repositories
+    \* are those of the state before it, or those of the state after it
+    <<"crash.atomic", (\E st \in {"pre", "cur"} : \A r \in DOMAIN e.obs : ViewMatches(e.obs[r], st, r)) \/ DevArtifactTwoSaves(e)>>,
+    \* (reported separately so that it can be listed as a known finding: it fails exactly when only the deviation explains the image)
+    <<"crash.atomic.kf-artifact-two-saves", (\E st \in {"pre", "cur"} : \A r \in DOMAIN e.obs : ViewMatches(e.obs[r], st, r)) \/ ~DevArtifactTwoSaves(e)>> }
+TraceCrash ==
+  /\ l <= Len(Trace) /\ Trace[l].k = "crash"
+  /\ l' = l + 1
+  /\ UNCHANGED <<vars, pre, lastop, lastgc, prevobs, rsum, osum>>
+  /\ IF skip THEN UNCHANGED <<skip, fails>> /\ stats' = [stats EXCEPT !.events = @ + 1]
+     ELSE LET e == Trace[l]
+              f == {c[1] : c \in {x \in CrashClauses(e) : ~x[2] /\ "C09" \in Focus}}
+          IN /\ fails' = IF f = {} THEN fails
+                         ELSE Append(fails, [trace |-> env.trace, i |-> e.during, line |-> l, op |-> "crash:" \o e.fsop \o ":" \o e.variant,
+                                             clauses |-> f, detail |-> [n |-> e.n, paths |-> e.paths]])
+             /\ skip' = FALSE          \* every image is judged on its own
+             /\ stats' = [stats EXCEPT !.events = @ + 1, !.checked = @ + 1]
+
+TraceNext == TraceReset \/ TraceOp \/ TraceCrash
 TraceSpec == TraceInit /\ [][TraceNext]_tvars
 
 \* acceptance: the whole file was consumed (one state per line) ...
